@@ -108,6 +108,8 @@ pub struct Session {
     pub tick0: bool,
     /// Entities whose mutations may have been applied (and dropped) before the tick-0 update message.
     pub f20_ents: BTreeSet<u64>,
+    /// Reference model of every held entity's confirmation history: server entity -> confirmed ticks.
+    pub conf: BTreeMap<u64, BTreeSet<u32>>,
 }
 
 impl Session {
@@ -149,6 +151,7 @@ impl Session {
             idle_replication_msgs: 0,
             tick0: false,
             f20_ents: BTreeSet::new(),
+            conf: BTreeMap::new(),
         }
     }
     pub fn up(&self) -> bool {
@@ -332,6 +335,8 @@ pub struct Sim {
     pub stop_pending: bool,
     pub started_at: Option<u64>,
     pub resume_phase: bool,
+    /// Slots that had a structural operation since the last replication tick.
+    pub struct_since_tick: BTreeMap<u8, u32>,
 }
 
 pub fn silent_panics() {
@@ -417,6 +422,7 @@ impl Sim {
             stop_pending: false,
             started_at: None,
             resume_phase: false,
+            struct_since_tick: BTreeMap::new(),
         }
     }
 
@@ -486,6 +492,17 @@ impl Sim {
     pub fn apply(&mut self, step: &Step) {
         self.stats.steps += 1;
         Stats::bump(&mut self.stats.ops, step.name());
+        let struct_slot = match step {
+            Step::Spawn { slot, .. } | Step::Despawn { slot } | Step::MarkerOff { slot } | Step::MarkerOn { slot } | Step::Insert { slot, .. } | Step::Remove { slot, .. } | Step::SetVis { slot, .. } => Some(*slot),
+            _ => None,
+        };
+        if let Some(slot) = struct_slot {
+            let n = self.struct_since_tick.entry(slot).or_insert(0);
+            *n += 1;
+            if *n == 2 {
+                self.stats.probe("two_struct_ops_one_window_same_slot");
+            }
+        }
         match step {
             Step::Spawn { slot, kinds, marker } => self.op_spawn(*slot, kinds, *marker),
             Step::Despawn { slot } => {
@@ -1100,6 +1117,13 @@ impl Sim {
                     e.delivered = true;
                 }
             }
+            let pending = sess.upd_sent.len() - sess.upd_delivered.min(sess.upd_sent.len());
+            if pending >= 1 {
+                Stats::bump(&mut self.stats.probes, "event_overtook_update");
+            }
+            if pending >= 2 {
+                Stats::bump(&mut self.stats.probes, "event_overtook_2_updates");
+            }
         }
         self.clients[c]
             .app
@@ -1238,6 +1262,7 @@ impl Sim {
         // Event emission bookkeeping: events written before this frame were read by it.
         self.note_emission_frame(ticked, t);
         if ticked {
+            self.struct_since_tick.clear();
             self.stats.ticks += 1;
             if self.last_tick == Some(t) {
                 // The same tick replicated twice (first frame after a start): keep the newest view.
